@@ -22,8 +22,8 @@ ssize_t getrandom(void *b, size_t n, unsigned f) { MON("getrandom"); static ssiz
 int rand(void) { MON("rand"); static int (*real)(void) = (int (*)(void))dlsym(RTLD_NEXT, "rand"); return real(); }
 }
 
-struct PSet { const char *name; int lam; int n, k, l, Bgbit, t, basebit; };
-static const PSet SETS[] = {{"default-128", 128, 0, 0, 0, 0, 0, 0}, {"default-80", 80, 0, 0, 0, 0, 0, 0}, {"small-n8-k1", 0, 8, 1, 2, 10, 4, 2}, {"small-n9-k2", 0, 9, 2, 3, 7, 3, 3}, {"small-n8-k2", 0, 8, 2, 2, 8, 2, 1}, {"small-n9-k1", 0, 9, 1, 1, 16, 8, 2}};
+struct PSet { const char *name; int lam; int n, k, l, Bgbit, t, basebit; int noiseless = 0; };
+static const PSet SETS[] = {{"default-128", 128, 0, 0, 0, 0, 0, 0}, {"default-80", 80, 0, 0, 0, 0, 0, 0}, {"small-n8-k1", 0, 8, 1, 2, 10, 4, 2}, {"small-n9-k2", 0, 9, 2, 3, 7, 3, 3}, {"small-n8-k2", 0, 8, 2, 2, 8, 2, 1}, {"small-n9-k1", 0, 9, 1, 1, 16, 8, 2}, {"noiseless-n8-k1", 0, 8, 1, 2, 10, 4, 2, 1}, {"noiseless-n9-k2", 0, 9, 2, 3, 7, 3, 3, 1}};
 
 static std::string bytes_of(bool file, const std::function<void(FILE *)> &ff, const std::function<void(std::ostream &)> &fs) {
     if (file) { char *b = nullptr; size_t len = 0; FILE *F = open_memstream(&b, &len); ff(F); fclose(F); std::string r(b, len); free(b); return r; }
@@ -50,7 +50,7 @@ static std::vector<std::pair<std::string, std::string>> encodings(const std::vec
 static TFheGateBootstrappingSecretKeySet *gen_keys(const PSet &P, int k, TFheGateBootstrappingParameterSet *&ps) {
             uint32_t sd[3] = {(uint32_t)S().seed, (uint32_t)k, (uint32_t)fnv(P.name, strlen(P.name))}; tfhe_random_generator_setSeed(sd, 3);
             if (P.lam) ps = new_default_gate_bootstrapping_parameters(P.lam);
-            else { LweParams *lp = new_LweParams(P.n, 1e-5, 0.01); TLweParams *tp = new_TLweParams(1024, P.k, 1e-9, 0.01); TGswParams *gp = new_TGswParams(P.l, P.Bgbit, tp); ps = new TFheGateBootstrappingParameterSet(P.t, P.basebit, lp, gp); }
+            else { LweParams *lp = new_LweParams(P.n, P.noiseless ? 0. : 1e-5, 0.01); TLweParams *tp = new_TLweParams(1024, P.k, P.noiseless ? 0. : 1e-9, 0.01); TGswParams *gp = new_TGswParams(P.l, P.Bgbit, tp); ps = new TFheGateBootstrappingParameterSet(P.t, P.basebit, lp, gp); }
             TFheGateBootstrappingSecretKeySet *sk = new_random_gate_bootstrapping_secret_keyset(ps);
             return sk;
 }
@@ -107,6 +107,12 @@ static void audit(const std::string &key, const PSet &P, TFheGateBootstrappingPa
             //     every bootstrapping-key row is a linear equation lsb(b) = <lsb(a), key> + lsb(noise) (the message part is even); with real noise an
             //     over-determined system (unknowns + 64 equations) is inconsistent with probability 1 - 2^-64; a consistent one hands out the key
             {
+                // a row whose mask is all zero carries its message - a multiple of a secret key coefficient - in clear, whatever the noise parameter
+                { const LweKeySwitchKey *ks0 = ck->bkFFT->ks; int base0 = 1 << bb; for (int i = 0; i < kk * N; i++) for (int j = 0; j < t; j++) for (int h = 1; h < base0; h++) { const LweSample *r = &ks0->ks[i][j][h]; bool z = true; for (int q = 0; q < n; q++) if (r->a[q]) z = false;
+                      if (z && n >= 4) { violation(key, fmt("key-switching row (i=%d, j=%d, h=%d) of the exported cloud key has an all-zero mask: its body is h*s_i/base^(j+1) in clear (ring key coefficient %d readable from public data)", i, j, h, i)); return; } }
+                  for (int i = 0; i < n; i++) for (int p = 0; p < (kk + 1) * l; p++) { const TLweSample *row = &ck->bk->bk[i].all_sample[p]; int nzpolys = 0; for (int q = 0; q < kk; q++) { int nzc = 0; for (int m = 0; m < N; m++) if (row->a[q].coefsT[m]) nzc++; if (nzc > N / 2) nzpolys++; }
+                      if (nzpolys < kk) { violation(key, fmt("bootstrapping-key row %d of LWE key bit %d in the exported cloud key has an all-zero mask polynomial: the row shows s_i times the gadget in clear", p, i)); return; } } }
+                if (P.noiseless) { eval(1); nontrivial(1); outcome(mix(fnv(cloud.data() + pset.size() + kssec, 64), cloud.size())); return; }   // without noise the rows are linear equations by construction: no linear-attack oracle
                 auto consistent = [](std::vector<std::vector<uint64_t>> &rows, int unknowns) { // augmented bit rows: bit `unknowns` = right-hand side
                     size_t r = 0; int W = (unknowns + 64) / 64;
                     for (int c = 0; c < unknowns && r < rows.size(); c++) { size_t piv = r; while (piv < rows.size() && !((rows[piv][c / 64] >> (c % 64)) & 1)) piv++; if (piv == rows.size()) continue; std::swap(rows[r], rows[piv]);
